@@ -7,10 +7,6 @@ NOT_APPLICABLE = {
            'extension strings, base64 headers); no structural necessary '
            'condition beyond constant tables the unit tests already pin - '
            'value-level, outside static analysis',
-    'C17': 'byte-level encode/parse round trip over all reply texts and '
-           'segmentations: a value-level statement about two regexes and '
-           'byte concatenation; the only structural residue (whole-line '
-           'consumption of the receive buffer) is decided under C09',
     'C20': 'value-level round trip through the stdlib email package, pickle '
            'and deepcopy on arbitrary header/body bytes; nothing in the shape '
            'of Envelope decides it (the deep-copy clause is covered '
@@ -335,6 +331,31 @@ claim('C18',
       'buffer-bound pattern check, exception-escape analysis over inlined '
       'CFG, handler reachability',
       'DESIGN.md §4 C18')
+
+claim('C17',
+      'Structural part only: (W1) the enhanced-status class is the first '
+      'character of the reply code on every return of the getter; (W2) '
+      'writer/reader agreement on reply-line framing - the separators and the '
+      'line terminator IO.send_reply writes are accepted by '
+      'reply_line_pattern (regex syntax tree) at those positions, non-final '
+      'lines carry exactly the continuation marker recv_reply tests for and '
+      'the final line does not; (W3) a non-reply line, a code that differs '
+      'within one reply and undecodable text each reach `raise BadReply`, '
+      'no other raised class escapes recv_reply, every code the parser '
+      'yields passes Reply.code (regex inclusion); (W4) the parser neither '
+      'spins nor stands still: the scan position moves past a non-empty '
+      'match on every trip, every continuing trip of the outer loop reads '
+      'more input (path-sensitive in the loop flag); (W5) recorded lines '
+      'are consumed, only whole lines are consumed, one reply per '
+      'Reply.recv. The byte-level round trip of arbitrary reply texts under '
+      'all segmentations is value-level and is NOT decided.',
+      'Trusted: Python tuple/regex semantics as read off re._parser trees; '
+      'the message splitting by line_pattern and the UTF-8 round trip are '
+      'not analysed.',
+      'regex syntax-tree comparison of writer constants with the reader '
+      'pattern, guard dominance, exception-escape analysis, loop-progress '
+      'typestate',
+      'DESIGN.md §4 C17')
 
 
 def extend(pid, text, technique=None):
